@@ -13,12 +13,9 @@ import (
 func (x *Exec) initChan(n *node, r *Term, size Value) {
 	st := n.st
 	sz := x.toIndex(size, tyInt)
-	h := x.heap(st, "Chan.cap", Arr(IntS, bv64))
-	x.setHeap(st, "Chan.cap", x.VC.Def("H.chan.cap", Store(h, r, sz)), r)
-	hl := x.heap(st, "Chan.len", Arr(IntS, bv64))
-	x.setHeap(st, "Chan.len", x.VC.Def("H.chan.len", Store(hl, r, BVLit(0, 64))), r)
-	hc := x.heap(st, "Chan.closed", Arr(IntS, BoolS))
-	x.setHeap(st, "Chan.closed", x.VC.Def("H.chan.closed", Store(hc, r, False)), r)
+	x.objSet(st, "Chan.cap", r, sz)
+	x.objSet(st, "Chan.len", r, BVLit(0, 64))
+	x.objSet(st, "Chan.closed", r, False)
 }
 
 func (x *Exec) chanLen(n *node, ch *Term) *Term {
@@ -30,8 +27,7 @@ func (x *Exec) chanLen(n *node, ch *Term) *Term {
 }
 
 func (x *Exec) chanCap(n *node, ch *Term) *Term {
-	h := x.heap(n.st, "Chan.cap", Arr(IntS, bv64))
-	c := x.VC.Def("chancap", Select(h, ch))
+	c := x.VC.Def("chancap", x.objGet(n.st, "Chan.cap", bv64, ch))
 	x.VC.Assume(n.guard, And(BVCmp("bvsle", BVLit(0, 64), c), BVCmp("bvsle", c, lim47)), "chan-cap-range")
 	return c
 }
@@ -39,11 +35,10 @@ func (x *Exec) chanCap(n *node, ch *Term) *Term {
 func (x *Exec) chanClose(n *node, ch *Term, pos token.Pos) {
 	st := n.st
 	x.nilCheck(n, ch, pos, "close")
-	hc := x.heap(st, "Chan.closed", Arr(IntS, BoolS))
 	txt := x.srcExpr(pos, "call")
 	// closing twice panics: the channel must be known open; shared channels are closed under a typestate discipline
-	x.Oblige("close", txt, "", pos, n.guard, Not(Select(hc, ch)), nil)
-	x.setHeap(st, "Chan.closed", x.VC.Def("H.chan.closed", Store(hc, ch, True)), ch)
+	x.Oblige("close", txt, "", pos, n.guard, Not(x.objGet(st, "Chan.closed", BoolS, ch)), nil)
+	x.objSet(st, "Chan.closed", ch, True)
 }
 
 func (x *Exec) chanRecv(n *node, ch Value, i *ssa.UnOp) Value {
